@@ -583,22 +583,34 @@ def check_step_bound(prog: Program, rep, rule: str) -> None:
                                                                                                       'math', 'abs')]
     for nme in speed_names:
         env[nme] = S('s')
-    # the speed read must be the air-relative speed: its reaching definition is |V - W|
+    # the speed read must be the air-relative speed |V - W| of this step: the loop body is evaluated up to the statement
+    # that defines the time step, and what the speed name holds there is compared with the magnitude of V - W
+    from .c01 import loop_iteration
+    from .flow import DENSITY_CALL
+    from ..abseval import Tup, leaves as _leaves
     air_ok = True
-    for nme in set(speed_names):
-        defs = F.defs_reaching(tau_def, nme)
-        for d in defs:
-            val = d.ast.value if isinstance(d.ast, ast.Assign) else None
-            if not (val is not None and isinstance(val, ast.Call) and isinstance(val.func, ast.Attribute)
-                    and val.func.attr == 'magnitude'):
+    ev_s = Evaluator(prog, hooks={'symcall': lambda ev_, fv, args, kwargs, st_: (Tup([S('rho'), S('a')])
+                                                                              if fv.path.endswith('.' + DENSITY_CALL) else None),
+                                  'call:_calculate_by_curve_and_mach_list': lambda ev_, func, args, kwargs, st_, sv: S('Cd'),
+                                  **C.no_wrap_hooks()},
+                      opaque={'create_trajectory_row', 'spin_drift'})
+    ctx_s = Ctx(tc, F.func, None, 0)
+    _st_s, _self_s, tree_s, wname = loop_iteration(prog, F, ev_s, ctx_s, stop_before=tau_def)
+    n_speed = 0
+    for _path, lf in _leaves(tree_s):
+        if lf.kind != 'fall':
+            continue
+        for nme in set(speed_names):
+            got_s = lf.state.env.get(nme)
+            try:
+                want_s = ev_s.eval_text(f'({F.V} - {wname}).magnitude()', dict(lf.state.env), tc, lf.state)
+            except Undecided as exc:
+                raise AnalysisError(f'air-relative speed: {exc}') from exc
+            n_speed += 1
+            if not (isinstance(got_s, Scalar) and isinstance(want_s, Scalar) and got_s.rf.equals(want_s.rf)):
                 air_ok = False
-                continue
-            src = val.func.value
-            if isinstance(src, ast.Name):
-                sd = F.defs_reaching(d.ast, src.id)
-                if not all(isinstance(x.ast, ast.Assign) and isinstance(x.ast.value, ast.BinOp)
-                           and isinstance(x.ast.value.op, ast.Sub) and norm(x.ast.value.left) == F.V for x in sd):
-                    air_ok = False
+    if n_speed == 0:
+        raise AnalysisError('time step: no path reaches its definition in the abstract evaluation')
     try:
         tau = ev.eval(tau_def.value, State(env, st.heap), Ctx(tc, F.func, None, 0))
     except Undecided as exc:
